@@ -202,6 +202,12 @@ type Engine struct {
 
 	// muDigest ensures only one goroutine can generate a digest at a time.
 	muDigest sync.RWMutex
+
+	// retainedSnapshot is the cache snapshot handed out by the last call to
+	// WriteSnapshot and retainedSegments the closed WAL segments it covers.
+	// Both are guarded by mu.
+	retainedSnapshot *Cache
+	retainedSegments []string
 }
 
 // NewEngine returns a new instance of Engine.
@@ -1950,6 +1956,16 @@ func (e *Engine) WriteSnapshot() (err error) {
 		snapshot, err = e.Cache.Snapshot()
 		if err != nil {
 			return
+		}
+
+		// After a failed attempt the cache hands back the snapshot it retained,
+		// which holds only what was written before that attempt. Writes made
+		// since then are in the live cache and in segments closed just now;
+		// committing the retry must not remove those segments.
+		if snapshot == e.retainedSnapshot {
+			segments = e.retainedSegments
+		} else {
+			e.retainedSnapshot, e.retainedSegments = snapshot, segments
 		}
 
 		return
